@@ -15,7 +15,8 @@ REQUIRED_CLASSES = {t: ["last_is_periodic_reversal", "last_not_periodic_reversal
                         "last_equals_first", "trailing_plateau", "leading_plateau", "first_is_zero", "one_sign",
                         "hcm:_handle_case_a_i", "hcm:_handle_case_a_ii", "hcm:_handle_case_b", "hcm:_handle_case_c_i",
                         "hcm:_handle_case_c_ii", "refine:trailing", "refine:leading", "refine:interior",
-                        "refine:duplicate", "float_loads", "input:several_points"]
+                        "refine:duplicate", "float_loads", "input:several_points", "load_step_labels:descending", "load_step_labels:shuffled",
+                        "load_step_labels:gaps", "node_ids:descending", "node_ids:shuffled_large"]
                     for t in ("quick", "thorough")}
 REQUIRED_MONITORS = ["pass2==periodic_rainflow", "pass2_all_closed", "half_only_in_pass1_and_symmetric",
                      "refinement:pass1_unchanged", "refinement:pass2_unchanged", "several_points==single_point"]
@@ -169,10 +170,13 @@ def run_case(case, ctx):
         k = int(rng.integers(2, 4))
         factors = [float(2.0 ** int(e)) for e in rng.integers(-2, 3, k)]
         ctx.tag("input:several_points")
-        law_m = hcm.make_law(max_load=pd.Series([mx * f for f in factors], index=pd.Index(range(k), name="node_id")))
+        lk, labels = hcm.step_labels(rng, len(seq))
+        nk, node_ids = hcm.node_labels(rng, k)
+        ctx.tag("load_step_labels:" + lk, "node_ids:" + nk)
+        law_m = hcm.make_law(max_load=pd.Series([mx * f for f in factors], index=pd.Index(node_ids, name="node_id")))
         rec = RFR.FKMNonlinearRecorder()
         det_m = FKMNonlinearDetector(recorder=rec, notch_approximation_law=law_m)
-        ser = hcm.multi_point_series(seq, factors)
+        ser = hcm.multi_point_series(seq, factors, labels, node_ids)
         det_m.process_hcm_first(ser)
         det_m.process_hcm_second(ser)
         cm = rec.collective
@@ -183,7 +187,7 @@ def run_case(case, ctx):
                 exp_rows = sorted((lo * f, hi * f, cl) for lo, hi, cl in rows.get(ri, []))
                 if sorted(rp.get(ri, [])) != exp_rows:
                     ok, bad = False, {"point": pnt, "factor": f, "pass": ri, "got": sorted(rp.get(ri, [])), "expected": exp_rows}
-        ctx.check("several_points==single_point", ok, observed=bad, tags=mech, detail={"factors": factors})
+        ctx.check("several_points==single_point", ok, observed=bad, tags=mech, detail={"factors": factors, "load_step_labels": labels, "node_ids": node_ids})
 
     # refinement by non-reversal samples: what is counted must not change
     ref_seq = _refine(seq, rng, ctx)
